@@ -63,6 +63,12 @@ fn set_text(w: &mut Value, key: &str, s: &str) {
 /// Minimise a C05 world: drop documents the operation does not need, schema lines, then schema and
 /// document characters, keeping the same failure.
 pub fn minimise_world(check: &str, v: &Violation, secs: u64) -> Violation {
+  minimise_world_opt(check, v, secs, false)
+}
+
+/// `light`: documents and schema lines only (enough for the line-based known-finding predicates); used for
+/// groups whose raw world already satisfies a known-finding predicate.
+pub fn minimise_world_opt(check: &str, v: &Violation, secs: u64, light: bool) -> Violation {
   let wd: u64 = if v.class == "hang" { 5 } else { 20 };
   let mut budget = Budget::new(if v.class == "hang" { 40 } else { 300 }, secs);
   let class = v.class.clone();
@@ -119,6 +125,11 @@ pub fn minimise_world(check: &str, v: &Violation, secs: u64) -> Violation {
         }
       }
     }
+  }
+  if light {
+    let mut out = v.clone();
+    out.world = w;
+    return out;
   }
   // characters of each schema line (line structure is kept, so that the known-finding predicates,
   // which read rules line by line, see the same rules the parser sees)
@@ -593,6 +604,12 @@ pub fn pre_key(v: &Violation) -> String {
     (schema.contains("uri") && v.detail.contains("uriparse-")) as u8,
     predicate("abnf_huge_repetition", v) as u8
   )
+}
+
+/// Does the raw world already satisfy one of the known-finding predicates?
+pub fn raw_predicate_holds(v: &Violation) -> bool {
+  let schema = schema_of(v);
+  unguarded_rule_cycle(&schema) || generic_reentrancy(&schema) || predicate("abnf_huge_repetition", v) || predicate("leftover_entry_state_debug_assert", v)
 }
 
 pub fn world_size(v: &Violation) -> usize {
